@@ -27,6 +27,35 @@ def _win_ramp(L):
 WINDOWS = {"ones": _win_ones, "bartlett": _win_bartlett, "signed": _win_signed, "ramp": _win_ramp}
 
 
+class InjectedFault(RuntimeError):
+    """Raised by a FaultyWindow when the simulator armed it."""
+
+
+class FaultyWindow:
+    """A user window callable whose next k-th call can be made to fail (injected fault); picklable, name-preserving."""
+
+    def __init__(self, name):
+        self.name = name
+        self.__name__ = "faulty_" + name
+        self.countdown = None
+        self.fired = 0
+
+    def arm(self, k):
+        self.countdown = int(k)
+
+    def disarm(self):
+        self.countdown = None
+
+    def __call__(self, L):
+        if self.countdown is not None:
+            self.countdown -= 1
+            if self.countdown <= 0:
+                self.countdown = None
+                self.fired += 1
+                raise InjectedFault(f"injected failure of the window callable for L={L}")
+        return WINDOWS[self.name](L)
+
+
 def resolve_win(name):
     """name -> value for SpectrumAnalyzer(win=...)"""
     if name in ("kaiser", "hann", "hanning", "Kaiser", "HANN"):
@@ -178,6 +207,8 @@ def gen_config(rw, N, *, backends=("numba",), allow_custom=True, allow_band=True
     if sched == "custom":
         cfg["custom_plan"] = gen_custom_plan(rw, N, cfg["fs"])
         cfg["Lmin"] = 1
+        if rw.random() < 0.3:
+            cfg["custom_b_offset"] = rw.choice([0.25, -0.4, 3.0])
     elif allow_force and rw.random() < 0.1:
         # the Jdes search starts at Jdes=100, so only bin counts between nf(Jdes=100) and N/2-1 are reachable
         cfg["force_target_nf"] = True
@@ -206,7 +237,7 @@ def make_big_plan(rw, cfg):
     return cfg
 
 
-def gen_custom_plan(rw, N, fs, max_bins=14, Lcap=None):
+def gen_custom_plan(rw, N, fs, max_bins=14, Lcap=None, sorted_f=True):
     """Adversarial request history for the per-call window / basis caches:
     alternating and recurring lengths, equal lengths at different frequencies,
     uniform or ragged K, unsorted / repeated starts."""
@@ -256,6 +287,8 @@ def gen_custom_plan(rw, N, fs, max_bins=14, Lcap=None):
         if r > 0.9:
             fj = round(f * L / fs) * fs / L  # exact integer bin
         bins.append([float(fj), int(L), [int(s) for s in starts]])
+    if not sorted_f:
+        return bins          # bins in the order the (custom) scheduler emits them: not ascending in frequency
     # np.interp etc. want increasing f in a result: keep them sorted but keep L order adversarial
     fsorted = sorted(b[0] for b in bins)
     for b, fv in zip(bins, fsorted):
@@ -272,8 +305,9 @@ class CustomPlan:
 
     __name__ = "custom_plan"
 
-    def __init__(self, bins):
+    def __init__(self, bins, b_offset=0.0):
         self.bins = bins
+        self.b_offset = b_offset     # the reported bin number is informational: results must come from f, not from b
 
     def __call__(self, N, fs, olap, bmin, Lmin, Jdes, Kdes, **kw):
         bins = self.bins
@@ -283,19 +317,19 @@ class CustomPlan:
         K = np.array([len(d) for d in D], dtype=np.int64)
         r = fs / L.astype(np.float64)
         return {
-            "f": f, "r": r, "b": f / r, "m": f / r, "L": L, "K": K, "navg": K.copy(), "D": D,
+            "f": f, "r": r, "b": f / r + self.b_offset, "m": f / r + self.b_offset, "L": L, "K": K, "navg": K.copy(), "D": D,
             "O": np.full(len(bins), float(olap)), "nf": len(bins),
         }
 
 
-def custom_scheduler(bins, fs_):
-    return CustomPlan(bins)
+def custom_scheduler(bins, fs_, b_offset=0.0):
+    return CustomPlan(bins, b_offset)
 
 
-def analyzer_kwargs(cfg):
+def analyzer_kwargs(cfg, win_obj=None):
     kw = dict(
         olap=cfg["olap"], bmin=cfg["bmin"], Lmin=cfg["Lmin"], Jdes=cfg["Jdes"], Kdes=cfg["Kdes"],
-        order=cfg["order"], psll=cfg["psll"], win=resolve_win(cfg["win"]),
+        order=cfg["order"], psll=cfg["psll"], win=win_obj if win_obj is not None else resolve_win(cfg["win"]),
         num_patch_pts=cfg.get("num_patch_pts"), force_target_nf=cfg.get("force_target_nf", False),
         backend=cfg.get("backend", "numba"),
         verbose=bool(cfg.get("verbose", False)),
@@ -303,13 +337,13 @@ def analyzer_kwargs(cfg):
     if cfg.get("band") is not None:
         kw["band"] = (cfg["band"][0], cfg["band"][1])
     if cfg["scheduler"] == "custom":
-        kw["scheduler"] = custom_scheduler(cfg["custom_plan"], cfg["fs"])
+        kw["scheduler"] = custom_scheduler(cfg["custom_plan"], cfg["fs"], cfg.get("custom_b_offset", 0.0))
     else:
         kw["scheduler"] = cfg["scheduler"]
     return kw
 
 
-def build_analyzer(data, cfg):
+def build_analyzer(data, cfg, win_obj=None):
     from speckit import SpectrumAnalyzer
 
-    return SpectrumAnalyzer(data, cfg["fs"], **analyzer_kwargs(cfg))
+    return SpectrumAnalyzer(data, cfg["fs"], **analyzer_kwargs(cfg, win_obj))
